@@ -73,6 +73,16 @@ def build_plc():
 # --------------------------------------------------------------------------
 # probe supervisor (one probe process per worker, synchronous)
 
+def proc_cpu_seconds(pid):
+    """user+system CPU seconds consumed so far by a live process (None if it is gone)."""
+    try:
+        with open("/proc/%d/stat" % pid) as f:
+            fields = f.read().rsplit(")", 1)[1].split()
+        return (int(fields[11]) + int(fields[12])) / float(os.sysconf("SC_CLK_TCK"))
+    except Exception:
+        return None
+
+
 class Probe:
     def __init__(self, binary=None, env=None):
         self.binary = binary or PROBE_BIN
@@ -81,6 +91,8 @@ class Probe:
         self.buf = b""
         self.restarts = 0
         self.counter = 0
+        self.watchdogs = 0
+        self.max_watchdogs = 6
         self.start()
 
     def start(self):
@@ -145,13 +157,20 @@ class Probe:
             self.p.stdin.flush()
         deadline = time.time() + timeout
         began = False
+        cpu0 = proc_cpu_seconds(self.p.pid) or 0.0
         while True:
             line = self._readline(deadline)
             if line is None:
+                # wall-clock watchdog: by itself inconclusive; the CPU the case consumed is the deterministic part
+                cpu1 = proc_cpu_seconds(self.p.pid)
                 self.close()
                 self.start()
                 self.restarts += 1
-                return {"watchdog": True, "began": began}
+                self.watchdogs += 1
+                if self.max_watchdogs is not None and self.watchdogs > self.max_watchdogs:
+                    raise MachineryError("the probe stopped answering on %d cases (wall-clock watchdog): the run is "
+                                         "inconclusive; C04 decides hangs" % self.watchdogs)
+                return {"watchdog": True, "began": began, "cpu_s": (cpu1 - cpu0) if cpu1 is not None else None}
             if line == b"":
                 rc = None
                 try:
@@ -185,11 +204,20 @@ def run_cli(args, tmpdir, timeout=30.0, stdin=None):
     env["TMPDIR"] = tmpdir
     env["NO_COLOR"] = "1"
     env["RUST_BACKTRACE"] = "1"
+    proc = subprocess.Popen([PLC_BIN] + args, stdout=subprocess.PIPE, stderr=subprocess.PIPE, env=env,
+                            stdin=subprocess.PIPE if stdin is not None else subprocess.DEVNULL)
     try:
-        p = subprocess.run([PLC_BIN] + args, stdout=subprocess.PIPE, stderr=subprocess.PIPE, env=env,
-                           timeout=timeout, input=stdin)
+        out, err = proc.communicate(input=stdin, timeout=timeout)
     except subprocess.TimeoutExpired:
-        return {"rc": None, "out": "", "err": "", "watchdog": True}
+        cpu = proc_cpu_seconds(proc.pid)
+        proc.kill()
+        proc.communicate()
+        return {"rc": None, "out": "", "err": "", "watchdog": True, "cpu_s": cpu}
+
+    class _P:
+        pass
+    p = _P()
+    p.returncode, p.stdout, p.stderr = proc.returncode, out, err
     return {"rc": p.returncode, "out": p.stdout.decode("utf-8", "replace"),
             "err": ANSI.sub("", p.stderr.decode("utf-8", "replace")), "watchdog": False}
 
